@@ -247,6 +247,41 @@ func c12Doc(r *mon.Run, doc []byte, trailing bool) (deadPrefix bool) {
 		r.Violate("panic", "json.Document/"+p.Site, fmt.Sprintf("Document Check/Len (%s) panicked on %q: %s", mode, mon.Trunc(string(doc), 80), p.Value), cs)
 		return false
 	}
+	// order of calls on one Document object: Len() before Check(), Check() twice, NextLexeme to the end before
+	// Check() - the answers must be those of the fresh object above
+	if len(doc) <= 4 || doc[len(doc)/2]%8 == byte(len(doc)%8) {
+		var err2, err3, err4, lerr2, lerr3 error
+		var ln2, ln3 uint
+		if p := mon.Guard(func() {
+			d2 := jdoc.New("doc", doc, opts...)
+			ln2, lerr2 = d2.Len()
+			err2 = d2.Check()
+			err3 = d2.Check()
+			ln3, lerr3 = d2.Len()
+			d3 := jdoc.New("doc", doc, opts...)
+			for i := 0; i <= 2*len(doc)+4; i++ {
+				if _, e := d3.NextLexeme(); e != nil {
+					break
+				}
+			}
+			err4 = d3.Check()
+		}); p != nil {
+			r.Violate("panic", "json.Document(call order)/"+p.Site, fmt.Sprintf("Document Len/Check/NextLexeme in another order (%s) panicked on %q: %s", mode, mon.Trunc(string(doc), 80), p.Value), cs)
+			return false
+		}
+		r.Count("call_order_variants_compared", 1)
+		switch {
+		case (err2 == nil) != (err == nil) || (err3 == nil) != (err == nil):
+			r.Violate("call-order", key, fmt.Sprintf("Document(%s) %q: Check() on a fresh object: %v; after Len() on the same object: %v, repeated: %v", mode, mon.Trunc(string(doc), 80), err, err2, err3), cs)
+			return false
+		case (err4 == nil) != (err == nil):
+			r.Violate("call-order", key, fmt.Sprintf("Document(%s) %q: Check() on a fresh object: %v; after reading all lexemes from the same object: %v", mode, mon.Trunc(string(doc), 80), err, err4), cs)
+			return false
+		case err == nil && ((lerr2 == nil) != (lerr == nil) || ln2 != ln || (lerr3 == nil) != (lerr == nil) || ln3 != ln):
+			r.Violate("call-order", key, fmt.Sprintf("Document(%s) %q: Len() after Check() = %d (%v); Len() first = %d (%v); Len() again = %d (%v)", mode, mon.Trunc(string(doc), 80), ln, lerr, ln2, lerr2, ln3, lerr3), cs)
+			return false
+		}
+	}
 	var want bool
 	var wantLen int
 	if trailing {
@@ -474,7 +509,7 @@ func init() {
 			stdjson.Unmarshal(raw, &c)
 			c12Doc(r, c.Doc, c.Trailing)
 		},
-		Rule:               "every byte string over a 31-symbol JSON alphabet ({ } [ ] : , quote backslash / u b 0 1 9 - + . e E t r f a l s n space LF é 0x1f 0x7f) up to length 6 (quick) / 7 (thorough), pruned only below prefixes that both the library and encoding/json reject because of an offending byte, plus generated documents (depth <= 7, all escape forms, random blanks) and their byte mutations / trailers; each text is checked in strict and trailing mode: Check() vs encoding/json.Valid resp. a streaming Decoder, Len(), and for accepted texts the NextLexeme stream (nesting, spans, literal coverage) and the token tree vs encoding/json's. distinct_nontrivial = distinct texts (hashed).",
+		Rule:               "every byte string over a 31-symbol JSON alphabet ({ } [ ] : , quote backslash / u b 0 1 9 - + . e E t r f a l s n space LF é 0x1f 0x7f) up to length 6 (quick) / 7 (thorough), pruned only below prefixes that both the library and encoding/json reject because of an offending byte, plus generated documents (depth <= 7, all escape forms, random blanks) and their byte mutations / trailers; each text is checked in strict and trailing mode (texts up to 4 bytes and one in eight longer ones also with Len() before Check(), Check() repeated and all lexemes read before Check() on one object, which must answer like a fresh object): Check() vs encoding/json.Valid resp. a streaming Decoder, Len(), and for accepted texts the NextLexeme stream (nesting, spans, literal coverage) and the token tree vs encoding/json's. distinct_nontrivial = distinct texts (hashed).",
 		MinNontrivialQuick: 100000, MinNontrivialThorough: 1000000,
 		Assumptions: []string{"encoding/json (Valid, Decoder) is the independent RFC 8259 decoder", "invalid UTF-8 inside strings is not judged differently from encoding/json (which accepts it)",
 			"trailing mode reference: accepted iff a streaming json.Decoder decodes a first value"},
